@@ -136,3 +136,20 @@ def lit_value(n):
     if tag(n) == "unary" and n[1] == "-" and tag(n[2]) == "lit":
         return -n[2][2] if isinstance(n[2][2], (int, float)) else "-" + str(n[2][2])
     return None
+
+
+def expr_source_name(e):
+    """local a (possibly cloned / referenced) expression comes from"""
+    e = strip_try(e)
+    t = tag(e)
+    if t == "addr":
+        return expr_source_name(e[1])
+    if t == "unary" and e[1] == "*":
+        return expr_source_name(e[2])
+    if t == "path" and e[1][0] == "local":
+        return e[1][1]
+    if t == "mcall" and e[1].endswith(("::clone", "::deref", "::as_ref")):
+        return expr_source_name(e[2])
+    if t == "call" and len(e[2]) == 1 and (def_path(e[1]) or "").endswith("::clone"):
+        return expr_source_name(e[2][0])
+    return None
